@@ -19,7 +19,7 @@ from workload import scenario, scripted, tasks
 from . import engine_g, minimize
 from .mod_c04 import IDENTITY_TASK
 
-N = {"quick": 2200, "thorough": 25000}
+N = {"quick": 5500, "thorough": 50000}
 TOL = 1e-9
 
 
